@@ -337,7 +337,7 @@ def worker(job):
     kind, tier, seed = job[0], job[1], job[2]
     col = Collector("C16", tier, seed)
     st = Store()
-    npads = 2 if tier == "quick" else len(PADS)
+    npads = 1 if tier == "quick" else len(PADS)
     if kind == "prod":
         pi, ui = job[3], job[4]
         for n, s in enumerate(gen_product(pi, ui)):
@@ -537,14 +537,14 @@ def main():
         "is_url: (1) every string protocol+userinfo+host+port+path over the component alphabets (%d x %d x %d x %d x %d, valid forms and "
         "near-misses), (2) every concatenation of <= %d tokens of a %d-token URL alphabet, (3) %d seeded random URL-ish strings with "
         "0-2 character mutations; each string is evaluated under all 16 option valuations: 32 monotonicity implications (8 per option), "
-        "answers compared with whitespace-padded copies (ASCII and Unicode separators, %s pads per string), and every tld_aware acceptance "
+        "answers compared with whitespace-padded copies (8 (left, right) pads of ASCII whitespace and Unicode separators; %s), and every tld_aware acceptance "
         "judged by an independent host/TLD oracle.  urls_from_text: every concatenation of <= %d tokens of a %d-token text alphabet "
         "(words, ASCII/Unicode spaces, ASCII and typographic punctuation, '[', '](', ']', ')', URLs with and without protocol) + %d seeded "
         "random texts with markdown links (complete, truncated, empty or protocol-less target); per text: never-raises, per yield: non-empty, "
         "no surrounding whitespace, substring, order, protocol, is_url.  distinct_nontrivial = distinct is_url inputs accepted under at least "
         "one valuation + distinct (token-class shape, number of yields) of enumerated texts that yield or raise + random texts that yield or raise"
         % (len(PROTOS), len(USERS), len(HOSTS), len(PORTS), len(PATHS), bounds["is_url_seq_max_tokens"], len(SEQ_TOKENS),
-           bounds["random_url_strings"], "2 (rotating over 8)" if a.tier == "quick" else "8", bounds["text_max_tokens"], len(TEXT_TOKENS),
+           bounds["random_url_strings"], "one rotating pad per string" if a.tier == "quick" else "all 8 on product strings, 2 rotating on token sequences, 1 on random strings", bounds["text_max_tokens"], len(TEXT_TOKENS),
            bounds["random_texts"]))
     col.dump(a.out)
 
